@@ -17,6 +17,16 @@ Steps(r, n, k) == IF k = 0 THEN <<>>
                   ELSE LET r2 == A(r, LeafOf(n + 1))
                        IN <<[ev |-> "Append", count |-> n + 1, leaf |-> LeafOf(n + 1), want_peaks |-> r2, want_super |-> MR(r2)]>>
                           \o Steps(r2, n + 1, k - 1)
+\* the same with the all-zero hash as the item at the positions zs (an item is any 32-byte value: a slot holding the
+\* zero hash is occupied, not empty)
+RECURSIVE StepsZ(_, _, _, _)
+StepsZ(r, n, k, zs) == IF k = 0 THEN <<>>
+                       ELSE LET lf == IF (n + 1) \in zs THEN ZeroHash ELSE LeafOf(n + 1)
+                                r2 == A(r, lf)
+                            IN <<[ev |-> "Append", count |-> n + 1, leaf |-> lf, want_peaks |-> r2, want_super |-> MR(r2)]>>
+                               \o StepsZ(r2, n + 1, k - 1, zs)
+FreshZ(k, zs) == <<[ev |-> "New"], [ev |-> "Super", want_super |-> MR(<<>>)]>> \o StepsZ(<<>>, 0, k, zs)
+ZeroSets == {{1}, {2}, {1, 2}, {3}, {4}, {1, 3, 5, 7}, {5, 6}, 1..9}
 Fresh(k) == <<[ev |-> "New"], [ev |-> "Super", want_super |-> MR(<<>>)]>> \o Steps(<<>>, 0, k)
 Restored(n, k) == LET r == PeaksAfter(n)
                   IN <<[ev |-> "Restore", count |-> n, peaks |-> r], [ev |-> "Super", want_super |-> MR(r)]>> \o Steps(r, n, k)
@@ -24,6 +34,8 @@ Restored(n, k) == LET r == PeaksAfter(n)
 QuickPoints == {1, 2, 3, 4, 5, 7, 8, 11, 12, 16, 31, 32, 33}
 MorePoints == {63, 64, 65, 100, 127, 128, 129, 255, 256, 257}
 Scripts == {Fresh(IF Tier = "thorough" THEN 300 ELSE 80)}
+           \cup {FreshZ(9, zs) : zs \in ZeroSets}
+           \cup {Restored(255, 3), Restored(256, 2)}        \* the ninth slot (index 8) in every tier
            \cup {Restored(n, 9) : n \in QuickPoints \cup (IF Tier = "thorough" THEN MorePoints ELSE {})}
 Cases == {[api |-> a, script |-> s] : a \in {"mmr", "belt"}, s \in Scripts}
 ASSUME ndJsonSerialize(OutFile, SetToSeq(Cases))
